@@ -21,6 +21,12 @@ flows! {
     c41_scan_top(a: u32) -> (out: u32);
     c41_bounded_source_chain(a: u32) -> (init_sum: u32, out: u32);
     c41_top_bounded_keyed_fold(a: u32) -> (echo: u32, out: (u32, u32));
+    c41_forward_ref_chain(a: u32) -> (out: u32);
+    c41_cross_product(a: u32, b: u32) -> (tick: (u32, u32), top: (u32, u32));
+    c41_nested_tee(a: u32) -> (o1: u32, o2: u32, o3: u32);
+    c41_anti_join(a: (u32, u32), b: u32) -> (out: (u32, u32));
+    c41_optional_gate(a: u32, g: u32) -> (out: (u32, (usize, u32)));
+    c41_tick_scan_top_fold(a: u32) -> (items: (u32, u32), total: u32);
     c31_batch(a: u32) -> (out: Vec<u32>);
     c31_snapshot(a: u32) -> (out: (usize, usize));
     c31_state(a: u32) -> (out: (u32, u32));
